@@ -741,6 +741,25 @@ def b_relationship_loop(S):
         slice_from="if len(set_names) < 2", slice_to="additions_df =", returns_var="additions", default_num="Nat", join="tuple")
 
 
+def b_snap_driver(S):
+    """the snapping stage of `branches_and_nodes`: first pass, then `while any_changes_applied:` pass again, count, and let
+    `report_snapping_loop` raise when more passes were needed than allowed. One pass (`snap_traces`) is a parameter; the two call
+    sites must pass the same traces / threshold / areas (checked argument by argument through the exact call texts)."""
+    rfn = find_func(ast.parse(S[BAN]), "report_snapping_loop")
+    cond = [n for n in ast.walk(rfn) if isinstance(n, ast.If) and any(isinstance(b, ast.Raise) for b in n.body)]
+    if len(cond) != 1 or ast.unparse(cond[0].test) != "loops > allowed_loops" or "RecursionError" not in ast.unparse(cond[0].body[0]):
+        raise Untranslatable("report_snapping_loop does not raise RecursionError iff loops > allowed_loops")
+    C = {"snap_traces(traces_list, snap_threshold, areas=areas_list)": "(pass_ traces_list)",
+         "snap_traces(traces_list, snap_threshold, final_allowed_loop=loops == allowed_loops, areas=areas_list)": "(pass_ traces_list)"}
+    T = {k: "T × Bool" for k in C}
+    T.update({"loops": "Nat", "traces_list": "T", "any_changes_applied": "Bool"})
+    return translate_function(
+        S[BAN], "branches_and_nodes", "snap_driver", {"traces_list": "T", "allowed_loops": "Nat", "fuel": "Nat"}, "T × Nat", C, types=T, raises=True,
+        extra_params=[("{T}", "Type"), ("pass_", "T → T × Bool")], slice_from="loops = 0", slice_to="traces_geosrs = gpd.GeoSeries(traces_list",
+        returns_var="(traces_list, loops)", default_num="Nat", join="tuple",
+        raisers={"report_snapping_loop(loops, allowed_loops=allowed_loops)": ("(decide (loops > allowed_loops))", "RecursionError")})
+
+
 def b_validate_step(S):
     """`Validation._validate`: the per-(row, validator) decision; what the validator answers and what its fix returns are parameters"""
     C = {
@@ -813,6 +832,38 @@ def b_underlap_validator(S):
         "Bool × String", C, types=T, raises=True,
         extra_params=[("{L}", "Type"), ("{P}", "Type"), ("endpoints_of", "L → List P"), ("dist", "L → P → Rat"), ("is_ul", "L → L → P → Option Bool"), ("overlaps", "L → L → Bool")],
         slice_from="if len(trace_candidates) == 0", default_num="Rat", join="tuple")
+
+
+def b_area_validator(S):
+    """`TargetAreaSnapValidator`: validation_method (both loops, candidate test, window), is_candidate_underlapping and
+    simple_underlapping_checks (the decision chains); GEOS predicates are parameters"""
+    cand_call = _kwcall(standalone(S[TVALS], "TargetAreaSnapValidator.validation_method"), "validation_method",
+                        "TargetAreaSnapValidator.is_candidate_underlapping", {"snap_threshold": "snap_threshold"}) if False else None
+    src = standalone(S[TVALS], "TargetAreaSnapValidator.validation_method")
+    fn = find_func(ast.parse(src), "validation_method")
+    calls = [n for n in ast.walk(fn) if isinstance(n, ast.Call) and ast.unparse(n.func) == "TargetAreaSnapValidator.is_candidate_underlapping"]
+    if len(calls) != 1 or [ast.unparse(a) for a in calls[0].args] != ["endpoint", "geom", "area_polygon"] or {k.arg: ast.unparse(k.value) for k in calls[0].keywords} != {"snap_threshold": "snap_threshold"}:
+        raise Untranslatable("call of is_candidate_underlapping changed")
+    ctxt = ast.get_source_segment(src, calls[0])
+    out = translate_function(
+        src, "validation_method", "area_validation",
+        {"geom": "L", "area": "List A", "snap_threshold": "Rat", "snap_threshold_error_multiplier": "Rat", "area_edge_snap_multiplier": "Rat"}, "Bool",
+        {"get_trace_endpoints(geom)": "(endpoints_of geom)", "area.geometry.values": "area", ctxt: "(candidate endpoint geom area_polygon)",
+         "endpoint.distance(area_polygon.boundary)": "(bdist endpoint area_polygon)"},
+        types={"get_trace_endpoints(geom)": "List P", "endpoints": "List P", "area.geometry.values": "List A", ctxt: "Bool", "endpoint.distance(area_polygon.boundary)": "Rat"},
+        extra_params=[("{L}", "Type"), ("{P}", "Type"), ("{A}", "Type"), ("endpoints_of", "L → List P"), ("candidate", "P → L → A → Bool"), ("bdist", "P → A → Rat")],
+        slice_from="endpoints = get_trace_endpoints", default_num="Rat")
+    # simple_underlapping_checks -> Option Bool
+    src2 = standalone(S[TVALS], "TargetAreaSnapValidator.simple_underlapping_checks")
+    out += "\n" + translate_function(
+        src2, "simple_underlapping_checks", "simple_underlapping_checks", {}, "Option Bool",
+        {"endpoint.within(area_polygon)": "ep_within", "geom.within(area_polygon)": "geom_within",
+         "geom.within(scale(area_polygon, xfact=1 + snap_threshold, yfact=1 + snap_threshold))": "geom_within_scaled",
+         "False": "(some false)", "True": "(some true)", "None": "none"},
+        types={"endpoint.within(area_polygon)": "Bool", "endpoint_within": "Bool", "geom.within(area_polygon)": "Bool",
+               "geom.within(scale(area_polygon, xfact=1 + snap_threshold, yfact=1 + snap_threshold))": "Bool"},
+        extra_params=[("ep_within", "Bool"), ("geom_within", "Bool"), ("geom_within_scaled", "Bool")], slice_from="endpoint_within =")
+    return out
 
 
 def b_validation_defaults(S):
@@ -1085,6 +1136,7 @@ ITEMS: List[Item] = [
     Item("BranchIdentities", BAN, ["C05", "C01"], b_branch_identities, deps=["BranchIdentity"], extra_modules=[GENERAL]),
     Item("SnapConstants", BAN, ["C01", "C03", "C06", "C16"], b_snap_constants),
     Item("SnapInsert", BAN, ["C06"], b_snap_insert),
+    Item("SnapDriver", BAN, ["C06", "C03"], b_snap_driver),
     Item("BoundaryWeight", GENERAL, ["C08"], b_boundary_weight),
     Item("BranchBoundary", PARAMS, ["C08"], b_branch_boundary, extra_modules=[GENERAL, NETWORK]),
     Item("ParamTable", GENERAL, ["C08", "C20"], b_param_table),
@@ -1099,6 +1151,7 @@ ITEMS: List[Item] = [
     Item("ValidatorTable", TVALS, ["C09", "C13", "C02"], b_validator_table, extra_modules=[TVAL]),
     Item("ValidateStep", TVAL, ["C09", "C13"], b_validate_step),
     Item("UnderlapValidator", TVALS, ["C10", "C13"], b_underlap_validator),
+    Item("AreaValidator", TVALS, ["C10"], b_area_validator),
     Item("ValidationDefaults", TVAL, ["C10", "C03", "C16"], b_validation_defaults),
     Item("CacheDecorated", GENERAL, ["C17"], b_cache_decorated, extra_modules=[m for m in ALL_MODULES if m != GENERAL]),
     Item("Grid", GRID, ["C18"], b_grid),
